@@ -15,8 +15,13 @@ mkdir -p $VERIF_LEAN_DIR
 rsync -a --delete /verif/lean/ $VERIF_LEAN_DIR/
 git -C /repo apply "$patch" || { echo "patch does not apply"; exit 2; }
 caught=""; missed=""
+mkdir -p /verif/build/mut_out; rm -f /verif/build/mut_out/*.out
+# the first check rebuilds the shared artefacts under the lock; the rest run 8 at a time
+first=$(echo $props | cut -d' ' -f1)
+./check $first --tier quick > /verif/build/mut_out/$first.out 2>&1
+echo $props | tr ' ' '\n' | grep -v "^$first$" | xargs -P 8 -I{} sh -c './check {} --tier quick > /verif/build/mut_out/{}.out 2>&1'
 for p in $props; do
-  out=$(./check $p --tier quick 2>&1); rc=$?
+  out=$(cat /verif/build/mut_out/$p.out)
   if echo "$out" | grep -q "^VIOLATION"; then
      caught="$caught $p"; echo "== $p: CAUGHT  $(echo "$out" | grep -m1 '^VIOLATION')"; echo "$out" | grep -m2 "failing input\|broken:" | cut -c1-300
   else
